@@ -17,7 +17,8 @@ open scoped ComplexOrder MatrixOrder
 
 section sdpindex
 
-/-- **the affine expression handed to the boundary SDP is the (realigned) ray point**: `get_ABk_symmetric_extension_boundary` constrains the
+/-- (bookkeeping; definitional, proved by `rfl` — both sides are the same pointwise expression, and the identification of `1/N + β·H` with
+`rayPoint` is prose) **the affine expression handed to the boundary SDP is the (realigned) ray point**: `get_ABk_symmetric_extension_boundary` constrains the
 reduced state to `eye_realigned/(dA dB) + β·R` with `R` the realigned direction (op `extray` executes `extRaySigma`); this is the
 realignment of `1/N + β·H`, the point `rayPoint` of the threshold theorems of `NumqiProps/C06.lean` -/
 theorem extRaySigma_realign {R : Type} [Semiring R] (dA dB : ℕ) (invN β : R) (H : ℕ → ℕ → R) :
@@ -115,7 +116,9 @@ theorem kext_sum (k : ℕ) {M : ℕ} (ρ : Fin M → Matrix (Fin dA × Fin dB) (
 
 /-- the coefficient tensor of the bosonic block as `_ABk_symmetric_extension_setup` reads it (`coeffB.reshape(L², d²)` of
 `coeffB = get_partial_trace_ABk_to_AB_index(N, d, return_tensor=True).transpose(2,3,0,1)`, C17's `tensorOfTable` of the index table;
-for `d = 2` this is the tensor `group/symext.py:222` hands to the SDP, tied entry by entry through op `bij`) -/
+a Lean-side constant, not executed by the driver: its link to the implementation is the tie `bij` — for `d = 2` it is entry by entry the
+tensor `group/symext.py:222` hands to the SDP; for `d = 3` (`kext = 2, 3`; thorough also `kext = 4` and `d = 4`) the library's tensor is this
+one in the numerically derived irrep basis, `c' = (V ⊗ V̄)·c` with `V` unitary, checked by transforming back; other `(d, kext)` are not tied) -/
 noncomputable def bosonCoeff (d N : ℕ) : ℕ → ℂ := fun u =>
   @Dicke.tensorOfTable ℂ _ d (C17.tableC N d) ((u % (d * d)) / d) ((u % (d * d)) % d)
     ((u / (d * d)) / (klist d N).length) ((u / (d * d)) % (klist d N).length)
@@ -242,7 +245,9 @@ theorem sdp_boson_block_psd_aux (n : ℕ) (hd : 2 ≤ dB) (L : ℕ) (hL : L = (k
   rw [e] at key
   exact key
 
-/-- **soundness of the bosonic SDP (`use_boson=True`, and every `dimB = 2` call): every feasible point certifies an extension.**  For a
+/-- **soundness of the bosonic block of the SDP: every feasible point certifies an extension** — for the coefficient tensor `bosonCoeff`
+(tied to the implementation for `dimB = 2` entry by entry, for `dimB = 3` up to the unitary change of irrep basis, which maps positive blocks
+to positive blocks and leaves `cvx_rdm` unchanged; see `bosonCoeff`).  For a
 positive semidefinite block `P` (the constraint `P >> 0`), the state `ρ` determined by `cvx_rdm == realign(ρ)` has a symmetric extension
 to `n+1` copies of `B` (`kext = n+1`), for all `dimA`, `dimB ≥ 2`, `n` — so `is_ABk_symmetric_ext(…) = True` and every
 `β ≤ get_ABk_symmetric_extension_boundary(…)` are, up to the solver contract, statements about `KEXT n`.  (The converse inclusion
